@@ -14,8 +14,8 @@ LEVEL = "model_checking"
 RULE = ("stateless schedule exploration of the real threads {k submitters, state machine, transport, receive "
         "worker, scripted peer} x environment answers of socket.send {all, 1 byte, all-but-1} (a non-default "
         "answer is a deviation): k = 1..2 submitters (thorough 3) x 1..2 messages each (send_message and "
-        "send_messages; 3 each against a 96-byte send-buffer limit) x inbound traffic {none, one DWR, one DWR sent when "
-        "the peer sees the first outbound byte, one application message} x send-buffer limit {default, 96, 40 "
+        "send_messages; 3 each against a 96-byte send-buffer limit) x inbound traffic {none, one DWR, one DWR / one application message "
+        "sent when the peer sees the first outbound byte, one application message} x send-buffer limit {default, 96, 40 "
         "bytes}; every schedule/answer pattern with <= d deviations (d = 1 quick; thorough d = 2 on k = 1). A "
         "state = one executed schedule")
 ASSUMPTIONS = [
@@ -86,6 +86,11 @@ class Outbound(explore.Scenario):
                 # a peer that reacts to the first byte it sees (inbound traffic while a write is half done)
                 n.peer.wait_for(lambda: len(n.peer.received()) > baseline, "first-byte", timeout=20.0)
                 n.peer.send(node.dwr(0x0e000001, 0x0f000001))
+            elif inbound == "app-on-data":
+                # the same with a message the node does not answer itself (no later write that could hide a
+                # stranded tail)
+                n.peer.wait_for(lambda: len(n.peer.received()) > baseline, "first-byte", timeout=20.0)
+                n.peer.send(node.app_request(7))
             elif inbound == "app":
                 n.peer.send(node.app_request(7))
 
@@ -193,8 +198,11 @@ def plan(tier):
     yield P(k=2, per=1), 1
     yield P(k=1, per=2, send_buffer=96), 1
     yield P(k=1, per=3, batch=True, send_buffer=96), 1
-    yield P(k=1, per=1, inbound="dwr-on-data"), 1
+    yield P(k=1, per=1, inbound="app-on-data"), 1
     if thorough:
+        yield P(k=1, per=1, inbound="dwr-on-data"), 1
+        yield P(k=2, per=1, inbound="app-on-data"), 1
+        yield P(k=1, per=1, inbound="app-on-data"), 2
         yield P(k=1, per=3, send_buffer=40), 1
         yield P(k=2, per=3, batch=True, send_buffer=96), 1
         yield P(k=1, per=2, inbound="dwr-on-data"), 1
